@@ -10,6 +10,9 @@ From Coq Require Import List NArith ZArith Bool.
 From SK Require Import lib.Tok lib.LGraph model.C03_Model model.C05_Model.
 Import ListNotations.
 
+(* the cap of these examples: the engine's default (no embed_threshold given) *)
+#[local] Instance default_thr : Thr := thr_of None.
+
 Definition bx_host : hostg := (LG [(1%N, (NA 67%N false (3)%Z (0)%Z [79%N])); (2%N, (NA 79%N false (0)%Z (0)%Z [67%N; 67%N])); (3%N, (NA 67%N true (0)%Z (0)%Z [67%N; 67%N; 79%N])); (4%N, (NA 67%N true (1)%Z (0)%Z [67%N; 67%N])); (5%N, (NA 67%N true (1)%Z (0)%Z [67%N; 67%N])); (6%N, (NA 67%N true (1)%Z (0)%Z [67%N; 67%N])); (7%N, (NA 67%N true (1)%Z (0)%Z [67%N; 67%N])); (8%N, (NA 67%N true (0)%Z (0)%Z [67%N; 67%N; 67%N])); (9%N, (NA 67%N false (0)%Z (0)%Z [67%N; 67%N; 67%N; 79%N])); (10%N, (NA 79%N false (1)%Z (0)%Z [67%N])); (11%N, (NA 67%N false (1)%Z (0)%Z [67%N; 67%N; 79%N])); (12%N, (NA 79%N false (1)%Z (0)%Z [67%N])); (13%N, (NA 67%N false (2)%Z (0)%Z [67%N; 67%N])); (14%N, (NA 67%N false (0)%Z (0)%Z [67%N; 67%N; 67%N; 67%N])); (15%N, (NA 67%N true (0)%Z (0)%Z [67%N; 67%N; 67%N])); (16%N, (NA 67%N true (1)%Z (0)%Z [67%N; 67%N])); (17%N, (NA 67%N true (1)%Z (0)%Z [67%N; 67%N])); (18%N, (NA 67%N true (1)%Z (0)%Z [67%N; 67%N])); (19%N, (NA 67%N true (1)%Z (0)%Z [67%N; 67%N])); (20%N, (NA 67%N true (1)%Z (0)%Z [67%N; 67%N])); (21%N, (NA 67%N true (0)%Z (0)%Z [67%N; 67%N; 67%N])); (22%N, (NA 67%N true (1)%Z (0)%Z [67%N; 67%N])); (23%N, (NA 67%N true (1)%Z (0)%Z [67%N; 67%N])); (24%N, (NA 67%N true (1)%Z (0)%Z [67%N; 67%N])); (25%N, (NA 67%N true (1)%Z (0)%Z [67%N; 67%N])); (26%N, (NA 67%N true (1)%Z (0)%Z [67%N; 67%N])); (27%N, (NA 67%N false (1)%Z (0)%Z [67%N; 67%N; 67%N])); (28%N, (NA 67%N false (2)%Z (0)%Z [67%N; 78%N])); (29%N, (NA 78%N false (1)%Z (0)%Z [67%N; 67%N])); (30%N, (NA 67%N false (2)%Z (0)%Z [67%N; 78%N])); (31%N, (NA 67%N false (1)%Z (0)%Z [67%N; 67%N; 67%N])); (32%N, (NA 79%N false (0)%Z (0)%Z [67%N])); (33%N, (NA 67%N false (0)%Z (0)%Z [67%N; 79%N; 79%N])); (34%N, (NA 79%N false (1)%Z (0)%Z [67%N])); (35%N, (NA 67%N false (2)%Z (0)%Z [67%N; 67%N])); (36%N, (NA 67%N true (0)%Z (0)%Z [67%N; 67%N; 67%N])); (37%N, (NA 67%N true (1)%Z (0)%Z [67%N; 78%N])); (38%N, (NA 78%N true (1)%Z (0)%Z [67%N; 67%N])); (39%N, (NA 67%N true (0)%Z (0)%Z [67%N; 67%N; 78%N])); (40%N, (NA 67%N true (1)%Z (0)%Z [67%N; 67%N])); (41%N, (NA 67%N true (1)%Z (0)%Z [67%N; 67%N])); (42%N, (NA 67%N true (1)%Z (0)%Z [67%N; 67%N])); (43%N, (NA 67%N true (1)%Z (0)%Z [67%N; 67%N])); (44%N, (NA 67%N true (0)%Z (0)%Z [67%N; 67%N; 67%N]))] [(1%N, 2%N, (2)%Z); (2%N, 3%N, (2)%Z); (3%N, 4%N, (3)%Z); (3%N, 8%N, (3)%Z); (4%N, 5%N, (3)%Z); (5%N, 6%N, (3)%Z); (6%N, 7%N, (3)%Z); (7%N, 8%N, (3)%Z); (8%N, 9%N, (2)%Z); (9%N, 10%N, (2)%Z); (9%N, 11%N, (2)%Z); (9%N, 31%N, (2)%Z); (11%N, 12%N, (2)%Z); (11%N, 13%N, (2)%Z); (13%N, 14%N, (2)%Z); (14%N, 15%N, (2)%Z); (14%N, 21%N, (2)%Z); (14%N, 27%N, (2)%Z); (15%N, 16%N, (3)%Z); (15%N, 20%N, (3)%Z); (16%N, 17%N, (3)%Z); (17%N, 18%N, (3)%Z); (18%N, 19%N, (3)%Z); (19%N, 20%N, (3)%Z); (21%N, 22%N, (3)%Z); (21%N, 26%N, (3)%Z); (22%N, 23%N, (3)%Z); (23%N, 24%N, (3)%Z); (24%N, 25%N, (3)%Z); (25%N, 26%N, (3)%Z); (27%N, 28%N, (2)%Z); (27%N, 31%N, (2)%Z); (28%N, 29%N, (2)%Z); (29%N, 30%N, (2)%Z); (30%N, 31%N, (2)%Z); (32%N, 33%N, (4)%Z); (33%N, 34%N, (2)%Z); (33%N, 35%N, (2)%Z); (35%N, 36%N, (2)%Z); (36%N, 37%N, (3)%Z); (36%N, 44%N, (3)%Z); (37%N, 38%N, (3)%Z); (38%N, 39%N, (3)%Z); (39%N, 40%N, (3)%Z); (39%N, 44%N, (3)%Z); (40%N, 41%N, (3)%Z); (41%N, 42%N, (3)%Z); (42%N, 43%N, (3)%Z); (43%N, 44%N, (3)%Z)]).
 Definition bx_tpl : its := (LG [(30%N, IN (NA 78%N false (0)%Z (0)%Z [67%N; 67%N; 72%N]) (NA 78%N false (0)%Z (0)%Z [67%N; 67%N; 67%N]) 0%Z None); (34%N, IN (NA 67%N false (0)%Z (0)%Z [67%N; 79%N; 79%N]) (NA 67%N false (0)%Z (0)%Z [67%N; 78%N; 79%N]) 0%Z None); (31%N, IN (NA 72%N false (0)%Z (0)%Z [78%N]) (NA 72%N false (0)%Z (0)%Z [79%N]) 0%Z None); (35%N, IN (NA 79%N false (1)%Z (0)%Z [67%N]) (NA 79%N false (1)%Z (0)%Z [72%N]) 0%Z None)] [(30%N, 34%N, ((0)%Z, (2)%Z, (-2)%Z)); (30%N, 31%N, ((2)%Z, (0)%Z, (2)%Z)); (34%N, 35%N, ((2)%Z, (0)%Z, (2)%Z)); (31%N, 35%N, ((0)%Z, (2)%Z, (-2)%Z))]).
 
